@@ -18,6 +18,9 @@ static fl::location loc1(char const *a){ return fl::location{fl::name{fcppt::str
 static fl::location loc2(char const *a, char const *b){ return loc1(a) / fl::name{fcppt::string{b}}; }
 #define CTX fl::context ctx{lv(root), fcppt::enum_::array_init<fl::level_stream_array>([](auto){ return fl::level_stream{std::clog, fl::format::optional_function{}}; })}
 extern "C" {
+int vf_ctx_only(int root){ CTX; return root; }
+int vf_ctx_set_only(int root, int la){ CTX; ctx.set(loc1("a"), lv(la)); return root; }
+int vf_ctx_set_get1(int root, int la){ CTX; ctx.set(loc1("a"), lv(la)); return out(ctx.get(loc1("a"))); }
 int vf_ctx_get_root(int root){ CTX; return out(ctx.get(loc1("a"))); }
 void vf_ctx_set_get(int root, int la, int *g_a, int *g_ab, int *g_c){ CTX; ctx.set(loc1("a"), lv(la)); *g_a = out(ctx.get(loc1("a"))); *g_ab = out(ctx.get(loc2("a", "b"))); *g_c = out(ctx.get(loc1("c"))); }
 void vf_ctx_override(int root, int la, int lb, int *g_ab, int *g_a){ CTX; ctx.set(loc2("a", "b"), lv(lb)); ctx.set(loc1("a"), lv(la)); *g_ab = out(ctx.get(loc2("a", "b"))); *g_a = out(ctx.get(loc1("a"))); }
